@@ -90,3 +90,84 @@ def run_all(E, fn, args, states, prep=None):
             if r.kind != 'ret': raise Inconclusive(f"{fn}: path ended in {r.kind}: {r.val}")
             out.append(r.st)
     return out
+
+HEX_SOURCES = ['verilog/hex_pkg.sv', 'verilog/hex.sv', 'verilog/processor.sv', 'verilog/memory.sv']
+HEX_SIGNALS = ['i_clk', 'i_rst', 'o_syscall_valid', 'o_syscall', '__Vtrigrprev__TOP__i_clk', '__Vtrigrprev__TOP__i_rst',
+               'pc_q', 'areg_q', 'breg_q', 'oreg_q', 'instr', 'memory_q']
+RTL_MEMWORDS = 1 << 19
+
+class HexModel:
+    """top-level `hex` (processor + memory) verilated with the arguments of the CMake build (--trace, prefix Vhex_pkg)"""
+    def __init__(self, sources=HEX_SOURCES, tag='hex'):
+        pre = self.pre = 'Vhex_pkg'; self.tag = tag
+        d = self.dir = build.verilate('hex', sources, pre, extra=['--trace', '-Wno-fatal'] if tag != 'hex' else ['--trace'])
+        mods = {'TOP': f'{pre}___024root.h', 'TOP__hex': f'{pre}_hex.h', 'TOP__hex__u_memory': f'{pre}_memory.h', 'TOP__hex__u_processor': f'{pre}_processor.h'}
+        tables = {w: _members(os.path.join(d, h)) for w, h in mods.items() if os.path.exists(os.path.join(d, h))}
+        self.present = list(tables)
+        for w, h in mods.items():
+            if w in tables and 'memory_q' in open(os.path.join(d, h)).read():
+                for m_ in re.finditer(r'VlUnpacked<IData/\*31:0\*/, (\d+)> (\w*memory_q);', open(os.path.join(d, h)).read()):
+                    tables[w][m_.group(2)] = 4; self.memwords = int(m_.group(1))
+        def find(name):
+            for where, tbl in tables.items():
+                for k in tbl:
+                    if k == name or k == '__PVT__' + name or k.endswith('__DOT__' + name):
+                        return f"s->{where}.{k}", tbl[k]
+            raise Inconclusive(f"signal {name} not found in the Verilator output")
+        acc = []; self.width = {}; self.names = HEX_SIGNALS
+        for k, n in enumerate(self.names):
+            expr, w = find(n); self.width[n] = w
+            acc.append(f"    case {k}: return &{expr}{'[0]' if n == 'memory_q' else ''};")
+        cpps = sorted(c for c in glob.glob(os.path.join(d, f'{pre}_*__DepSet_*.cpp')))
+        wire = f"*({pre}__Syms**)&s->TOP.vlSymsp = s;"
+        if 'TOP__hex' in tables: wire += f" *({pre}__Syms**)&s->TOP__hex.vlSymsp = s; s->TOP.hex = &s->TOP__hex;"
+        if 'TOP__hex__u_memory' in tables: wire += f" *({pre}__Syms**)&s->TOP__hex__u_memory.vlSymsp = s; s->TOP__hex.u_memory = &s->TOP__hex__u_memory;"
+        if 'TOP__hex__u_processor' in tables: wire += f" *({pre}__Syms**)&s->TOP__hex__u_processor.vlSymsp = s; s->TOP__hex.u_processor = &s->TOP__hex__u_processor;"
+        src = '#include "verilated.h"\n#include "verilated_vcd_c.h"\n' + f'#include "{pre}__Syms.h"\n' + ''.join(f'#include "{c}"\n' for c in cpps) + f'''
+void {pre}___024root___eval({pre}___024root* vlSelf);
+void {pre}___024root___eval_static({pre}___024root* vlSelf);
+void {pre}___024root___eval_initial({pre}___024root* vlSelf);
+void {pre}___024root___eval_settle({pre}___024root* vlSelf);
+extern "C" {{
+unsigned long m_size() {{ return sizeof({pre}__Syms); }}
+void m_wire({pre}__Syms* s) {{ {wire} }}
+void m_init({pre}__Syms* s) {{ {pre}___024root___eval_static(&s->TOP); {pre}___024root___eval_initial(&s->TOP); {pre}___024root___eval_settle(&s->TOP); }}
+void m_eval({pre}__Syms* s) {{ {pre}___024root___eval(&s->TOP); }}
+void* m_f({pre}__Syms* s, int k) {{
+  switch (k) {{
+{chr(10).join(acc)}
+  }}
+  return 0;
+}}
+}}
+'''
+        wrap = os.path.join(d, 'wrap.cpp'); open(wrap, 'w').write(src)
+        self.ll = build.ir(wrap, includes=[d, VL_INC, os.path.join(VL_INC, 'vltstd')])
+        self.M = parse_module(self.ll)
+
+    def engine(self):
+        E = Engine(self.M); stubs.install(E)
+        def fatal(E_, st, a): raise Abort('VL_FATAL: ' + E_.read_cstr(st, a[3]).decode(errors='replace'))
+        E.stubs['_Z11VL_FATAL_MTPKciS0_S0_'] = fatal
+        E.stubs['_ZN9Verilated9endOfEvalEP21VerilatedEvalMsgQueue'] = stubs.s_nop
+        E.stubs['_Z17VL_TESTPLUSARGS_IRKNSt7__cxx1112basic_stringIcSt11char_traitsIcESaIcEEE'] = stubs.s_ret0
+        return E
+
+    def fresh(self, E, mem_arr, over=None):
+        st = State()
+        size = E.run1('m_size', [], st)[1]
+        p = st.alloc(size, 'hex-syms')
+        st, _ = E.run1('m_wire', [p], st)
+        self.fp = {}
+        for k, n in enumerate(self.names):
+            st, q = E.run1('m_f', [p, k], st); self.fp[n] = q
+        st.objs[p.obj].regions.append(Region(self.fp['memory_q'].off, 4, self.memwords, mem_arr, over))
+        # __Vm_activity etc. (trace bookkeeping) are plain members initialised by the Syms constructor
+        st.objs[p.obj].zero.append((0, self.fp['memory_q'].off if self.fp['memory_q'].off < 4096 else 4096))
+        return st, p
+    def put(self, E, st, name, v): E.store(st, self.fp[name], self.width[name], v)
+    def get(self, E, st, name):
+        v = E.load(st, self.fp[name], self.width[name])
+        if isinstance(v, PV): v = E.use(st, v, 'observable net ' + name)
+        return v
+    def mem(self, st, p): return st.objs[p.obj].regions[0]
